@@ -60,7 +60,12 @@ Definition input_frames (sc : scen) : list Z :=
 Definition property (sc : scen) (o : obs) : verdict :=
   let W := wire_ids o in
   let all_ok := concat (map ok_ids (o_results o)) in
-  let clean := negb (has_rst sc) && (o_stuck o =? 0) in
+  (* the peer is known to be silent while we close (its input was complete before any Close was
+     called, or it sends nothing, or the run is serialized): data arriving after the read side
+     was shut down makes the kernel reset the connection, which may destroy flushed data — an
+     environment outside the statement (peers that READ promptly, slowly or late) *)
+  let peer_quiet := (sc_waitinput sc =? 1) || (match sc_input sc with [] => true | _ => false end) || (sc_mode sc =? 1) in
+  let clean := negb (has_rst sc) && (o_stuck o =? 0) && peer_quiet in
   (* 1: only accepted packets reach the peer, each at most once, intact, with the expected frame size *)
   let p1 := forallb (fun w => match w with (id, n, okb) => (okb =? 1) && mem id all_ok && (n =? frame_size o id) end) (o_wire o)
             && nodupb W in
